@@ -18,6 +18,7 @@ RULE = ('operation sequences over one list and one dict held in a persistent nam
         'Each step compares result class+value and full container contents; every write is followed by a read-back. Non-trivial = a step whose result and contents were compared; '
         'distinct = distinct (start state, operation sequence).')
 RULE += ' Sequences of the non-inserting dict lookups also run on a host defaultdict; half of the cases use a long-lived caching parser.'
+RULE += ' Keys include numbers whose text form carries an exponent (0.0000001, 10 ** 30); dicts built by a literal are read back with the same key (get({k: 5}, k), keys({k: 5})).'
 ASSUMPTIONS = ['R4: list index = truncation toward zero of a decimal, negative from the end; dict key = str(key) on literal, write, read, compound write, get and del',
                'for operations the statement does not pin (del of a missing key/index, write or pop(i) at an out-of-range index) the model accepts "raises any Exception or does nothing", '
                'but requires the container unchanged; remove and `in` use the raw key (no cast)',
@@ -28,7 +29,9 @@ CASE_DEADLINE = 30
 D = Decimal
 IDX = ['0', '1', '2', '-1', '-2', '1.5', '-1.5', '0.9', '-0.9', '2.0', '7', '-7', '3', '-3']
 VALS = ['0', '5', '"s"', '[1]', 'None', '{"k": 0}']
-KEYS = ['1', '1.0', '007', '-1', '"1"', '"a"', 'True', 'None', '2.50', '"True"', '0']
+KEYS = ['1', '1.0', '007', '-1', '"1"', '"a"', 'True', 'None', '2.50', '"True"', '0',
+        # numbers whose text form carries an exponent (str(Decimal) is the documented key): tiny literals, computed powers
+        '0.0000001', '10 ** 30', '0.00000025']
 
 
 def lit_value(text):
@@ -47,6 +50,9 @@ def lit_value(text):
         return {'k': D(0)}
     if text.startswith('-'):
         return -D(text[1:])
+    if ' ** ' in text:
+        a, b = text.split(' ** ')
+        return D(a) ** D(b)
     return D(text)
 
 
@@ -73,7 +79,7 @@ def list_ops():
 def dict_ops():
     ops = [('dlen',), ('keys',), ('values',), ('items',)]
     for k in KEYS:
-        ops += [('dread', k), ('ddel', k), ('get', k), ('getd', k), ('din', k), ('dremove', k)]
+        ops += [('dread', k), ('ddel', k), ('get', k), ('getd', k), ('din', k), ('dremove', k), ('dlit', k), ('dlitk', k)]
         ops.append(('dwrite', k, '5'))
         ops.append(('daug', k, '2'))
     ops.append(('dwrite', '"a"', '[1]'))
@@ -87,6 +93,8 @@ FMT = {
     'insert': 'insert(l, {0}, {1})', 'nwrite': 'l[{0}][{1}] = {2}', 'nread': 'l[{0}][{1}]', 'npush': 'push(l[{0}], 3)',
     'dlen': 'len(d)', 'keys': 'keys(d)', 'values': 'd | values', 'items': 'items(d)', 'dread': 'd[{0}]', 'ddel': 'del d[{0}]', 'get': 'get(d, {0})',
     'getd': 'get(d, {0}, "dflt")', 'din': '{0} in d', 'dremove': 'remove(d, {0})', 'dwrite': 'd[{0}] = {1}', 'daug': 'd[{0}] += {1}',
+    # a dict built by a literal normalises its keys exactly as an index write does
+    'dlit': 'get({{{0}: 5, "other": 1}}, {0}, "absent")', 'dlitk': 'keys({{"x": 0, {0}: 5}})',
 }
 
 
@@ -207,6 +215,10 @@ def model(op, l, d):
     if k == 'items':
         return [tuple(x) for x in d.items()]
     key = keystr(a[0]) if a else None
+    if k == 'dlit':
+        return D(5)
+    if k == 'dlitk':
+        return ['x', key] if key != 'x' else ['x']
     if k == 'dread':
         if key not in d:
             raise PE()
